@@ -26,6 +26,7 @@ EXPLANATION = (
     "evaluated for nterms <= 24), unequal sizes use the full product of both tables; "
     "(CAP) the cap grows on every sieve round and the loop ends only on a complete "
     "solution."
+    "Round 7: (OPTIONS) the caller's objective and outer-product option reach the DP as given; (PRESIMP) the batch-index simplification compares the index's carriers with the number of tensors, never the appearance table. "
 )
 ASSUMPTIONS = (
     "step costs are monotone (a tree's score is >= the scores of its subtrees), which is "
